@@ -32,6 +32,9 @@ class Inconclusive(Exception):
     pass
 
 
+PATH_START_HOOKS = []  # callables run at the start of every path (per-path caches are reset here)
+
+
 class Engine:
     def __init__(self, timeout_ms=20000, max_decisions=400000):
         self.solver = z3.Solver()
@@ -226,6 +229,8 @@ class Engine:
             self.hashed = []
             self.sticky = None
             self.inputs = {}
+            for hook in PATH_START_HOOKS:
+                hook()
             try:
                 r = fn()
                 if self.sticky is not None:
